@@ -25,7 +25,7 @@ class PDDLTokenizer:
                 self.pddl_file_content = pddl_file.readlines()
 
         else:
-            self.pddl_file_content = pddl_str.replace("\t", "").split("\n")
+            self.pddl_file_content = pddl_str.split("\n")
 
     def _is_comment_line(self, line: str) -> bool:
         """Indicates whither or not a line is a comment line
